@@ -54,10 +54,10 @@ def tb(x):
 class Check(CheckBase):
     pid = "C07"
     title = "legacy serial primitives"
-    bounds = {"quick": {"request": "1- or 2-letter symbolic name, 0-2 symbolic argument characters, CR", "empty reads": "e1, e2 in [0,3] u [99,102] (symbolic)",
+    bounds = {"quick": {"request": "1- or 2-letter symbolic name, 0-2 symbolic argument characters, CR", "empty reads": "e1, e2 in [0,2] u [99,102] (symbolic)",
                         "data line": "0, 2 or 5 symbolic characters + CRLF", "faults": "exception (SerialException/OSError/RuntimeError) at a "
                         "symbolic read index 0..5 with e1,e2 <= 2; failing write; port None; request None"},
-              "thorough": {"request": "as quick", "empty reads": "e1, e2 in [0,102] (symbolic)", "data line": "0..6 symbolic characters + CRLF",
+              "thorough": {"request": "as quick", "empty reads": "e1, e2 in [0,10] u [95,102] (symbolic)", "data line": "0..6 symbolic characters + CRLF",
                            "faults": "as quick with read index 0..8, e1,e2 <= 3"}}
     outside = ["non-ASCII bytes from the device (UnicodeDecodeError is not in the except tuple)", "a device that sends more lines than the documented reply",
                "the induction over sequences of requests (each step leaves the stream aligned; standard argument)"]
@@ -73,7 +73,7 @@ class Check(CheckBase):
         for fn in ("query", "command"):
             for shape in SHAPES:
                 for L in (lens if fn == "query" else (0,)):
-                    cs.append({"label": "%s/%s/conforming/L%d" % (fn, shape, L), "fn": fn, "shape": shape, "L": L, "mode": "conforming", "tier": tier})
+                    cs.append({"label": "%s/%s/conforming/L%d" % (fn, shape, L), "fn": fn, "shape": shape, "L": L, "mode": "conforming", "tier": tier, "split_depth": 6})
                 cs.append({"label": "%s/%s/read-exception" % (fn, shape), "fn": fn, "shape": shape, "L": 2, "mode": "rexc", "tier": tier})
                 cs.append({"label": "%s/%s/write-exception" % (fn, shape), "fn": fn, "shape": shape, "L": 2, "mode": "wexc", "tier": tier})
             cs.append({"label": "%s/none" % fn, "fn": fn, "shape": "N", "L": 0, "mode": "none", "tier": tier})
@@ -115,7 +115,9 @@ class Check(CheckBase):
         e2 = run.int("e2", 0, emax)
         if mode == "conforming":
             if quick:
-                run.assume(z3.And(z3.Or(e1.t <= 3, e1.t >= 99), z3.Or(e2.t <= 3, e2.t >= 99)))
+                run.assume(z3.And(z3.Or(e1.t <= 2, e1.t >= 99), z3.Or(e2.t <= 2, e2.t >= 99)))
+            else:
+                run.assume(z3.And(z3.Or(e1.t <= 10, e1.t >= 95), z3.Or(e2.t <= 10, e2.t >= 95)))
         else:
             lim = 2 if quick else 3
             run.assume(z3.And(e1.t <= lim, e2.t <= lim))
